@@ -477,7 +477,7 @@ func genGenerate(r *rand.Rand, c *CliCase, l Layout) {
 }
 
 func validCliCase(c *CliCase) bool {
-	if c.Clock0 < 946684800 || c.Clock0 > math.MaxInt32-400*86400-10 || len(c.Files) > 60 {
+	if c.Clock0 < 946684800 || c.Clock0 > math.MaxUint32-3*400*86400 || len(c.Files) > 60 {
 		return false
 	}
 	for _, f := range c.Files {
